@@ -14,6 +14,7 @@
             declared delta: the TCP length prefix is (octets sent) + delta
           -> None | Some:<message token, id field = reply id - request id> *)
 open Vutil
+open BinNums
 open Vmsg
 open WireTypes
 open ValidateModel
